@@ -11,6 +11,8 @@ def plan(ctx):
                    desc="ScopedDict.__setitem__ changes only the top scope"),
         Obligation("sd.scope", "xh", "c10", "sd_scope", timeout=T, bounds="two names, presence symbolic; nesting <= 2; body raises or not",
                    desc="make_scope pops on normal exit and when the body raises; inner bindings do not leak"),
+        Obligation("lambda.call_nothing_bound", "xh", "c10", "lambda_call_nothing_bound", timeout=T, bounds="0 or 1 declared parameters, no argument passed; host binding present or not; body raises or not; called at top level or inside another scope",
+                   desc="a lambda call that binds no parameter still has a scope of its own: its assignments vanish, host and caller bindings untouched"),
         Obligation("lambda.call", "xh", "c10", "lambda_call", timeout=T, bounds="re-entrancy depth <= 2; each activation may raise",
                    desc="real LambdaOp closure with a body that rebinds its parameter, makes a local, re-enters, raises: stack depth "
                         "and host/builtin scopes restored, positional binding"),
